@@ -683,7 +683,8 @@ def D6(m, R):
     P = m.cls(ro.POINT)
     f = m.fn('%s.%s' % (ro.POINT, ro.SCRUB))
     pgs = m.fn('parse_graphic_sequence')
-    calls = _calls(f, 'parse_graphic_sequence')
+    from ..shapes import with_helpers
+    calls = [c for g_ in with_helpers(m, f, 1) if g_.name != '_scrub_ansi_format_string' for c in _calls(g_, 'parse_graphic_sequence')]
     ok = len(calls) >= 1
     for c in calls:
         got, _ = _bound_texts(c, pgs)
